@@ -11,6 +11,7 @@ From Coq Require Import String.
 From V Require Import Prelude.Base Prelude.PyInt Prelude.PyStr.
 From V Require Import Model.Types Model.Crypto Model.Sym Model.KeyId Model.Gkdi Model.Kek Model.SecDesc Model.Blob Model.CryptoWrap Model.Interval Model.Client.
 From V Require Import Spec.GkdiSpec Spec.KekSpec.
+From V Require Import gen.K_e2e.
 From V Require Import Proofs.BlobPkcs7 Proofs.BlobMain Proofs.C01Lib Proofs.C01 Proofs.C19.
 
 Theorem C19_in_blob : forall (c : Crypto) (h : hash) (rk : root_key) (rkid : bytes) (s : sid) (sid : pystr) (time_ns l0 l1 l2 : Z)
@@ -108,6 +109,13 @@ Theorem C19_pubkey_partial : forall c h top es ep rnd seed kl p g,
     kid_key_info kid = concat (GkdiStructs.ffk_field_list {| ffk_key_length := kl; ffk_field_order := p; ffk_generator := g; ffk_public_key := dh_public p g x |}).
 Proof. exact pubkey_key_info. Qed.
 Print Assumptions C19_pubkey_partial.
+
+(* the draw sites in the current source (regenerated kernels): AESGCM.generate_key(256) then os.urandom(12), both returned
+   unmodified by cek_generate; in _encrypt_blob the CEK flows only into content_encrypt and cek_encrypt, the nonce only into
+   the GCM parameters SEQUENCE { OCTET STRING, INTEGER 16 }, and (kek, key_identifier) = key.new_kek() *)
+Theorem C19_draw_sites : k_cek_generate_draws = (256, 12) /\ k_encrypt_blob_flow = true.
+Proof. exact draw_sites. Qed.
+Print Assumptions C19_draw_sites.
 
 (* ---- instances ---- *)
 Example C19_example_rnd : rnd_distinct ex_rnd.
